@@ -85,6 +85,41 @@ pub fn run(args: &Args) -> i32 {
         }
     });
 
+    // points at EXACTLY the clustering distance (3 cm) from a neighbour, and one ulp either side: along z (z0 = 0 and
+    // z0 = -0.03 make the difference exact), along r, and for a whole second segment
+    rep.run("exact-linkage-distance", 3 * 3 * 4, 300, true, "a 15-point radial line plus {one point, a 14-point copy of the line, two points on either side} displaced by exactly 3 cm (and +-1 ulp) along z from z0 in {0, -0.03} or along r: clustering, fits and vertexing return", |idx, loc| {
+        let d = unrank(idx, &[3, 3, 4]);
+        let gap = [0.03, f64::from_bits(0.03f64.to_bits() + 1), f64::from_bits(0.03f64.to_bits() - 1)][d[0] as usize];
+        let (z0, along_r) = [(0.0, false), (-0.03, false), (0.0, true), (0.25, false)][d[2] as usize];
+        let line: Vec<alpha_g_physics::SpacePoint> = (0..15).map(|i| sp(0.11 + 0.002 * i as f64, 0.9, z0)).collect();
+        let shifted = |p: &alpha_g_physics::SpacePoint| if along_r { sp(p.r.value + 0.002 * 14.0 + gap, 0.9, z0) } else { sp(p.r.value, 0.9, z0 + gap) };
+        let mut pts = line.clone();
+        match d[1] {
+            0 => pts.push(shifted(&line[0])),
+            1 => pts.extend(line.iter().take(14).map(shifted)),
+            _ => {
+                pts.push(shifted(&line[3]));
+                pts.push(if along_r { sp(line[0].r.value - gap, 0.9, z0) } else { sp(line[3].r.value, 0.9, z0 - gap) });
+            }
+        }
+        let what = json!({"family": "exact-linkage-distance", "gap_m": gap, "z0": z0, "along_r": along_r, "shape": d[1]});
+        loc.note(hash64(&pts.iter().map(bits3).collect::<Vec<_>>()), true, "evaluated");
+        let mut tracks = Vec::new();
+        match cluster(pts) {
+            Err(p) => loc.violation(format!("panic:clustering:{}", panic_site(&p)), json!({"case": what, "panic": p})),
+            Ok((clusters, _)) => {
+                for c in clusters {
+                    match guard(|| Track::try_from(c).map_err(|e| e.to_string())) {
+                        Err(p) => loc.violation(format!("panic:track-fit:{}", panic_site(&p)), json!({"case": what, "panic": p})),
+                        Ok(Ok(t)) => tracks.push(t),
+                        Ok(Err(_)) => {}
+                    }
+                }
+            }
+        }
+        check_vertexing(tracks, what, loc);
+    });
+
     // helices of every pitch
     rep.run("helix-pitches", 44 * 5 * 3, 300, true, "points on a helix (radius 0.64 m around (-0.5, 0)) for all 44 pitches (0, -0, +-subnormal, +-1e-17..+-1e2, +-2.2e-16, +-2.3e-16) x 5 orientations x sizes {13, 20, 60}", |idx, loc| {
         let d = unrank(idx, &[44, 5, 3]);
